@@ -25,6 +25,12 @@ def batch_package():
                             ("u", U(((None, P("int32")), (None, P("string")), (None, N("BtInner"))), True))])
     Triv = Rec("BtTrivRec", [("a", P("float32")), ("b", P("float32"))])
     BtEnum = En("BtEnum", [("lo", 0), ("mid", 300), ("hi", 70000)], None, False, True)
+    # flags without a named zero (no flag set is written as [] in NDJSON), flags with one, and records carrying them at several depths
+    Flags = En("BtFlags", [("a", 1), ("b", 2), ("c", 4)], "uint8", True, True)
+    Mode = En("BtMode", [("none", 0), ("r", 1), ("w", 2)], None, True, True)
+    FlagInner = Rec("BtFlagInner", [("f", N("BtFlags")), ("name", P("string"))])
+    FlagRec = Rec("BtFlagsRecord", [("f", N("BtFlags")), ("mode", N("BtMode")), ("e", N("BtEnum")), ("of", Opt(N("BtFlags"))), ("inner", N("BtFlagInner")),
+                                ("vf", V(N("BtFlags"))), ("mf", M(P("string"), N("BtFlags"))), ("n", P("int32")), ("s", P("string")), ("fa", V(P("int16"), 2))])
     Gen = Rec("BtGen", [("id", P("int32")), ("value", TP("T")), ("more", V(TP("T")))], ("T",))
     items = [
         ("mapSI", M(P("string"), P("int32"))),
@@ -50,13 +56,19 @@ def batch_package():
         ("genOpt", N("BtGen", (Opt(P("int32")),))),
         ("genUnion", N("BtGen", (U(((None, P("int32")), (None, P("string"))), True),))),
         ("genMap", N("BtGen", (M(P("string"), P("int32")),))),
+        ("flagsItem", N("BtFlags")),
+        ("modeItem", N("BtMode")),
+        ("enumItem", N("BtEnum")),
+        ("flagRec", N("BtFlagsRecord")),
+        ("unionFlags", U((("f", N("BtFlags")), ("s", P("string")), ("r", N("BtFlagInner"))), False, True)),
+        ("genFlags", N("BtGen", (N("BtFlags"),))),
     ]
     protos = [Proto("Bt" + n[:1].upper() + n[1:], [("pre", P("uint8")), ("s", S(t)), ("post", P("string"))]) for n, t in items]
     # the first value after a stream is null (an item of the next stream, an optional step)
     protos.append(Proto("BtNullFirst", [("a", S(P("int32"))), ("marks", S(Opt(P("int32")))), ("o", Opt(P("string"))), ("t", S(U(((None, P("int32")), (None, P("string"))), True))), ("post", P("int32"))]))
     # two streams in one protocol: block bookkeeping must reset between steps
     protos.append(Proto("BtTwo", [("a", S(M(P("string"), P("int32")))), ("b", S(N("BtOuter"))), ("post", P("int32"))]))
-    return Pkg("Batch", [Inner, Outer, Triv, BtEnum, Gen] + protos)
+    return Pkg("Batch", [Inner, Outer, Triv, BtEnum, Flags, Mode, FlagInner, FlagRec, Gen] + protos)
 
 
 def shaped_items(vg: values.ValueGen, t, n: int, r):
@@ -66,6 +78,24 @@ def shaped_items(vg: values.ValueGen, t, n: int, r):
         vg.max_len = [6, 1, 0, 4, 2, 5][i % 6]
         v = vg.gen(t, 1)
         out.append(v)
+    return out
+
+
+def reset_items(c, vg: values.ValueGen, t, n: int):
+    """n items alternating between a populated value and the type's zero value (0, no flag set, "", empty, null): a reader that reuses its
+    destination for the next item (the documented while-loop, the elements of a batch vector from the second batch on) has to reset all of it"""
+    out = []
+    for i in range(n):
+        if i % 2 == 1 or i == 4:
+            out.append(values.zero_value(c, t))
+        else:
+            vg.max_len = 4
+            v = vg.gen(t, 1)
+            for _ in range(20):
+                if v != values.zero_value(c, t):
+                    break
+                v = vg.gen(t, 1)
+            out.append(v)
     return out
 
 
@@ -118,6 +148,20 @@ def run(ctx):
                     jobs.append((proto, vals, {i: sizes for i in sidx}, cap, "bin"))
             for cap in CAPS[: (3 if quick else 6)]:
                 jobs.append((proto, vals, None, cap, "ndjson"))
+        # populated / zero / populated / zero / zero ...: binary, reference NDJSON lines, and the NDJSON text the generated C++ writes (which leaves
+        # out fields that hold their default) read back by C++ with every capacity
+        for n in ((2, 5) if quick else (2, 3, 5, 6, 9)):
+            r = rng("C17reset", proto.name, n)
+            vg = values.ValueGen(c, r, json_safe=True)
+            vals = []
+            for i, (sn, t) in enumerate(proto.steps):
+                ft = c.fq(t)
+                vals.append(reset_items(c, vg, ft.item, n) if isinstance(ft, S) else vg.gen(ft, 0))
+            for cap in CAPS:
+                jobs.append((proto, vals, {i: [n] for i in sidx}, cap, "bin"))
+                jobs.append((proto, vals, {i: [1] * n for i in sidx}, cap, "bin"))
+                jobs.append((proto, vals, None, cap, "ndjson"))
+                jobs.append((proto, vals, None, cap, "cppnd"))
         # long stream, random partition
         for rep in range(1 if quick else 4):
             r = rng("C17long", proto.name, rep)
@@ -140,6 +184,14 @@ def run(ctx):
         sch = m.schema(proto.name)
         if infmt == "bin":
             data = c.encode_stream(proto, sch, vals, partitions=parts)
+        elif infmt == "cppnd":
+            src = c.encode_stream(proto, sch, vals)
+            w = rt.CppEndpoint(m, "plain").copy(proto.name, "bin", "ndjson", src)
+            ctx.ev()
+            if not rt.judge(ctx, m, proto, vals, src, w, "cpp-plain", "ndjson", "%s written as NDJSON by the generated C++" % proto.name, {}):
+                return
+            data, infmt = w.out, "ndjson"
+            ctx.count("ndjson-written-by-c++.read-back")
         else:
             data = ("\n".join(c.ndjson_lines(proto, sch, vals)) + "\n").encode()
         nstreams = sum(1 for _, t in proto.steps if isinstance(t, S))
